@@ -176,3 +176,4 @@ Example C04_exactness_nonvacuous :
   let a := qcl [1; 3; 9; 19; 33]%Q in
   qclist_eqb (map (d1_at QcOps a (qc 1)) [0; 1; 2; 3; 4]%nat) (qcl [0; 4; 8; 12; 16]%Q) = true.
 Proof. exact exactness_nonvacuous. Qed.
+Print Assumptions C04_exactness_nonvacuous.
